@@ -108,13 +108,18 @@ struct Expected {
 class PassiveParser {
  public:
   // gaps <= gapLo never truncate, gaps >= gapHi always truncate, in between: EITHER
-  PassiveParser(int64_t gapLo, int64_t gapHi) : m_gapLo(gapLo), m_gapHi(gapHi) {}
+  // ownAddr: ebusd's master address (a first symbol ebusd contributed to makes the telegram its own only when the wire
+  // carries that address, i.e. when it did not lose the arbitration to a lower address)
+  // answerAny: ebusd runs in answer mode, where it may answer on behalf of any registered destination
+  PassiveParser(int64_t gapLo, int64_t gapHi, int ownAddr = -1, bool answerAny = true) : m_gapLo(gapLo), m_gapHi(gapHi), m_ownAddr(ownAddr), m_answerAny(answerAny) {}
   std::vector<Expected> parse(const std::vector<RxSym>& in) const;
   // corrupted traffic seen (for reach counters)
   mutable uint64_t nInvalid = 0, nEitherGap = 0, nNakRepeat = 0, nTruncSyn = 0, nTruncGap = 0;
 
  private:
   int64_t m_gapLo, m_gapHi;
+  int m_ownAddr;
+  bool m_answerAny;
 };
 
 inline std::vector<Expected> PassiveParser::parse(const std::vector<RxSym>& in) const {
@@ -133,7 +138,7 @@ inline std::vector<Expected> PassiveParser::parse(const std::vector<RxSym>& in) 
     // a telegram attempt starts at i (first symbol after a SYN)
     bool either = false;      // undecidable by timing or NN > 16
     bool invalid = false;
-    bool own = in[i].own;     // QQ contributed by ebusd
+    bool own = in[i].own && (m_ownAddr < 0 || in[i].b == m_ownAddr);     // QQ contributed by ebusd and not overruled on the wire
     bool ownAnswer = false;
     bool hitSyn = false, hitReset = false;
     size_t pos = i;
@@ -243,7 +248,9 @@ inline std::vector<Expected> PassiveParser::parse(const std::vector<RxSym>& in) 
         // one takes the repetition; the statement does not decide
         if (firstSelfDst) either = true;
         if (!readMaster(&crcOk)) break;
-        if (tg.master[1] == BROADCAST) { invalid = true; break; }
+        // a repetition that is a broadcast (the NAK-ed first attempt was not one, e.g. its destination was corrupted):
+        // the statement's grammar has no NAK for broadcasts and does not decide whether this is "that telegram repeated"
+        if (tg.master[1] == BROADCAST) { if (crcOk) { complete = true; either = true; } else { invalid = true; } break; }
         zz = tg.master[1];
         if (!raw(&a, &ackOwn)) break;
         if (a != ACK || !crcOk || selfDst) { invalid = true; break; }
@@ -251,7 +258,9 @@ inline std::vector<Expected> PassiveParser::parse(const std::vector<RxSym>& in) 
         invalid = true;
         break;
       }
-      if (ackOwn) ownAnswer = true;
+      // answered by ebusd itself only when it is the addressed participant (a late arbitration symbol 0x00 of ebusd may
+      // coincide with the acknowledge slot of a foreign telegram: for ebusd that telegram is plain received traffic)
+      if (ackOwn && (m_ownAddr < 0 || m_answerAny || zz == m_ownAddr || zz == slaveOf(static_cast<uint8_t>(m_ownAddr)))) ownAnswer = true;
       if (isMaster(zz)) { complete = true; break; }
       // slave response
       if (!readSlave(&crcOk)) break;
